@@ -18,6 +18,7 @@ import (
 type c09Attempt struct {
 	Outcome string `json:"outcome"` // dialErr | refuse | silent | closeAfterConnack | garbage | goSilent | up
 	Code    int    `json:"code,omitempty"`
+	DelayUs int    `json:"delayUs,omitempty"` // dialErr: the dial takes this long before it fails
 }
 
 type c09Case struct {
@@ -72,7 +73,7 @@ func c09Run(tb rapid.TB, c c09Case) {
 		k := i + 1
 		switch a.Outcome {
 		case "dialErr":
-			plan = append(plan, e4Fault{Kind: "dialErr", Conn: k, Code: a.Code})
+			plan = append(plan, e4Fault{Kind: "dialErr", Conn: k, Code: a.Code, DelayUs: a.DelayUs})
 		case "refuse":
 			plan = append(plan, e4Fault{Kind: "refuse", Conn: k, Code: a.Code})
 		case "silent":
@@ -543,6 +544,7 @@ func c09Gen(rt *rapid.T) c09Case {
 			// the flavour of the dial error: plain, or one that has a context error in its chain (a dialler with its
 			// own per-attempt timeout) although the loop's context is alive
 			a.Code = rapid.SampledFrom([]int{0, 0, 1, 2}).Draw(rt, "dialErrKind")
+			a.DelayUs = rapid.SampledFrom([]int{0, 0, 1500, 6000}).Draw(rt, "dialDelayUs")
 		}
 		return a
 	}), 0, 7).Draw(rt, "attempts")
